@@ -3,6 +3,7 @@ CONSTANTS
   Keys = {1, 2}
   Caps = {1, 2}
   MaxLen = 2
+  NilPuts = TRUE
   Conc = TRUE
   Threads = {1, 2}
 INIT Init
